@@ -726,10 +726,21 @@ func main() {
 					failf(fset, fd, "function must have exactly one result")
 				}
 				rt := t.leanType(fd.Type.Results.List[0].Type)
-				var lines []string
-				t.block(fd.Body.List, "  ", &lines)
 				leanName := strings.ReplaceAll(fn, ".", "_")
-				fmt.Fprintf(&b, "/-- %s: %s -/\ndef %s %s : %s := Id.run do\n%s\n\n", sp.File, fn, leanName, strings.Join(params, " "), rt, strings.Join(lines, "\n"))
+				var body []ast.Stmt
+				for _, st := range fd.Body.List {
+					if !isLogCall(st) {
+						body = append(body, st)
+					}
+				}
+				if ret, ok := body[0].(*ast.ReturnStmt); ok && len(body) == 1 && len(ret.Results) == 1 {
+					// a function that is one expression is translated to that expression
+					fmt.Fprintf(&b, "/-- %s: %s -/\ndef %s %s : %s :=\n  %s\n\n", sp.File, fn, leanName, strings.Join(params, " "), rt, t.expr(ret.Results[0]))
+				} else {
+					var lines []string
+					t.block(fd.Body.List, "  ", &lines)
+					fmt.Fprintf(&b, "/-- %s: %s -/\ndef %s %s : %s := Id.run do\n%s\n\n", sp.File, fn, leanName, strings.Join(params, " "), rt, strings.Join(lines, "\n"))
+				}
 				res.Done = append(res.Done, sp.File+":"+fn)
 			}()
 		}
